@@ -1871,10 +1871,141 @@ def translate_tables(repo):
         if text_of(it.body) != "scheme_escape ( input ) . replace ( '~' , \"~~\" )": raise Untranslatable('template_escape changed')
         return 'def templateEscape (s : Text) : Text := FV.replaceTilde (schemeEscape s)'
     emit('templateEscape', 'template_escape', 'scheme/target_scheme.rs', template_escape_fn)
+
+    # ---- manager.rs: the text of every binding pushed onto `vars` / `fini`, with the index expression used at each
+    #      site, the matcher-name table, the generated names, the separators and the fixed bindings of the framed manager
+    MGR = 'scheme/manager.rs'
+    def find_formats(body):
+        """all `format ! ( "T" [, args] )` in a token list: (template, [arg token lists])"""
+        res, i = [], 0
+        while i < len(body) - 3:
+            if body[i].k == 'id' and body[i].v == 'format' and body[i + 1].v == '!' and body[i + 2].v == '(' and body[i + 3].k == 'str':
+                e = match_close(body, i + 2)
+                args, cur, depth = [], [], 0
+                for t in body[i + 4:e]:
+                    if t.k == 'p' and t.v in OPEN: depth += 1
+                    if t.k == 'p' and t.v in CLOSE: depth -= 1
+                    if t.k == 'p' and t.v == ',' and depth == 0:
+                        if cur: args.append(cur)
+                        cur = []
+                    else: cur.append(t)
+                if cur: args.append(cur)
+                res.append((body[i + 3].v, args)); i = e + 1
+            else: i += 1
+        return res
+
+    ARG = {'self . var_index': 'natToDec i', 'self . var_index + 1': 'natToDec (i + 1)', 'port . port': 'natToDec p', 'port . mutex': 'natToDec m',
+           'terminator_escape ( terminator )': 'terminatorEscape term', 'scheme_escape ( & filename )': 'schemeEscape filename'}
+    NAMED = {'matcher': 'matcherName pattern insensitive', 'escaped': 'schemeEscape pattern', 'index': 'natToDec index', 'index:02x': 'natToHex02 index',
+             'printer_index': 'natToDec i'}
+
+    def tpl(fmt, args):
+        out_, i, k, cur = [], 0, 0, ''
+        while i < len(fmt):
+            if fmt[i] == '{':
+                j = fmt.index('}', i); name = fmt[i + 1:j]
+                if cur: out_.append(lean_cl(cur)); cur = ''
+                if name == '':
+                    a = text_of(args[k]); k += 1
+                    if a not in ARG: raise Untranslatable('binding argument ' + a)
+                    out_.append(ARG[a])
+                elif name in NAMED: out_.append(NAMED[name])
+                else: raise Untranslatable('binding placeholder {%s}' % name)
+                i = j + 1
+            else: cur += fmt[i]; i += 1
+        if cur: out_.append(lean_cl(cur))
+        if k != len(args): raise Untranslatable('binding argument count')
+        return ' ++ '.join(out_)
+
+    def site(key, n, pushes=('vars',)):
+        it = items_of(MGR).get(key)
+        if it is None: raise Untranslatable(key + ' not found')
+        fs = find_formats(it.body)
+        if len(fs) != n: raise Untranslatable('%s: %d templates, expected %d' % (key, len(fs), n))
+        return it, [tpl(f, a) for f, a in fs]
+
+    def bindings(_it):
+        L = []
+        it, t = site('LocalSchemeManager::init_default_port', 2)
+        if 'self . vars . push ( format' not in text_of(it.body): raise Untranslatable('init_default_port')
+        L.append('/-- `LocalSchemeManager::init_default_port`: the two bindings pushed at index `i` -/\ndef localDefaultPortVars (i : Nat) : List Text :=\n  [%s,\n   %s]\n' % (t[0], t[1]))
+        it, t = site('LocalSchemeManager::register_printer', 1)
+        L.append('/-- `LocalSchemeManager::register_printer` -/\ndef localPrinterVar (i p m : Nat) (term : Option Char) : Text :=\n  %s\n' % t[0])
+        it, t = site('LocalSchemeManager::init_file_port', 3)
+        bt = text_of(it.body)
+        if not (bt.index('self . vars . push') < bt.index('self . fini . push') < bt.rindex('self . vars . push')): raise Untranslatable('init_file_port order')
+        L.append('/-- `LocalSchemeManager::init_file_port`: bindings pushed at index `i`, and the closing action -/\ndef localFilePortVars (i : Nat) (filename : Text) : List Text :=\n  [%s,\n   %s]\n\ndef localFilePortFini (i : Nat) : Text :=\n  %s\n' % (t[0], t[2], t[1]))
+        # matcher name table + binding, both managers (must read the same)
+        texts = []
+        for mgr in ('LocalSchemeManager', 'DistributedSchemeManager'):
+            it, t = site(mgr + '::register_str_match', 1)
+            a, b = find_match(it.body, '( is_pattern ( pattern ) , insensitive )') if False else (None, None)
+            bt = text_of(it.body)
+            mm = re.search(r'let matcher = match \( is_pattern \( pattern \) , insensitive \) \{ (.*?) \} ;', bt)
+            if not mm or 'let escaped = scheme_escape ( pattern ) ;' not in bt: raise Untranslatable(mgr + '::register_str_match shape')
+            rows = []
+            for arm in [x.strip() for x in mm.group(1).split(' , (') if x.strip()]:
+                arm = arm if arm.startswith('(') else '( ' + arm
+                m2 = re.fullmatch(r'\( (true|false) , (true|false) \) => ("(?:[^"\\]|\\.)*")(?: ,)?', arm.strip())
+                if not m2: raise Untranslatable('matcher table arm ' + arm)
+                rows.append('  | %s, %s => %s' % (m2.group(1), m2.group(2), lean_cl(json.loads(m2.group(3)))))
+            texts.append(('def matcherName (pattern : Text) (insensitive : Bool) : Text :=\n  match isPattern pattern, insensitive with\n%s\n' % '\n'.join(rows), t[0]))
+        if texts[0] != texts[1]: raise Untranslatable('the two register_str_match differ')
+        L.append('/-- the matcher table of `register_str_match` (identical in both managers) -/\n' + texts[0][0])
+        L.append('/-- `register_str_match`: the binding pushed at index `i` (identical in both managers) -/\ndef matcherVar (i : Nat) (pattern : Text) (insensitive : Bool) : Text :=\n  %s\n' % texts[0][1])
+        it, t = site('DistributedSchemeManager::register_printer', 1)
+        if 'let index = self . var_index ;' not in text_of(it.body): raise Untranslatable('distributed register_printer index')
+        L.append('/-- `DistributedSchemeManager::register_printer`: the binding for index `index` (= `var_index`) -/\ndef framedPrinterVar (index : Nat) : Text :=\n  %s\n' % t[0])
+        # the fixed bindings and the start index of the framed manager
+        it = items_of(MGR).get('DistributedSchemeManager::default')
+        if it is None: raise Untranslatable('Default for DistributedSchemeManager')
+        bt = text_of(it.body)
+        mm = re.search(r'var_index : (\d+)u32 , vars : vec ! \[ (.*?) , \] ,', bt)
+        if not mm: raise Untranslatable('Default for DistributedSchemeManager shape')
+        strs = re.findall(r'String :: from \( ("(?:[^"\\]|\\.)*") \)', mm.group(2))
+        L.append('/-- `Default for DistributedSchemeManager`: the start index and the fixed bindings -/\ndef framedStartIndex : Nat := %s\n\ndef framedFixedVars : List Text :=\n  [%s]\n' % (mm.group(1), ',\n   '.join(lean_cl(json.loads(x)) for x in strs)))
+        it = items_of(MGR).get('LocalSchemeManager::default')
+        mm = re.search(r'var_index : (\d+)u32 , vars : vec ! \[ \] ,', text_of(it.body)) if it else None
+        if not mm: raise Untranslatable('Default for LocalSchemeManager shape')
+        L.append('def plainStartIndex : Nat := %s\n' % mm.group(1))
+        # generated names and separators
+        names = []
+        for key in ('LocalSchemeManager::get_printer', 'LocalSchemeManager::get_file_printer', 'DistributedSchemeManager::get_printer', 'DistributedSchemeManager::get_file_printer'):
+            it, t = site(key, 1)
+            names.append(t[0].replace('natToDec index', 'natToDec i'))
+        if len(set(names)) != 1: raise Untranslatable('printer names differ between the getters')
+        L.append('/-- the name returned by `get_printer` / `get_file_printer` (all four) -/\ndef printerName (i : Nat) : Text :=\n  %s\n' % names[0])
+        mnames = []
+        for mgr in ('LocalSchemeManager', 'DistributedSchemeManager'):
+            it = items_of(MGR).get(mgr + '::get_matcher')
+            fs = find_formats(it.body)
+            if len(fs) != 1 or text_of(fs[0][1][0]) != 'self . register_str_match ( pattern , insensitive )': raise Untranslatable('get_matcher')
+            mnames.append(fs[0][0])
+        if len(set(mnames)) != 1 or not mnames[0].endswith('{}'): raise Untranslatable('matcher names')
+        L.append('/-- the name returned by `get_matcher` -/\ndef matcherRef (id : Nat) : Text :=\n  %s ++ natToDec id\n' % lean_cl(mnames[0][:-2]))
+        seps = {}
+        for mgr in ('LocalSchemeManager', 'DistributedSchemeManager'):
+            it = items_of(MGR).get(mgr + '::definitions')
+            mm = re.fullmatch(r'self \. vars \. join \( ("(?:[^"\\]|\\.)*") \)', text_of(it.body)) if it else None
+            if not mm: raise Untranslatable(mgr + '::definitions')
+            seps[mgr] = json.loads(mm.group(1))
+            it = items_of(MGR).get(mgr + '::modules')
+            if it is None or len(it.body) != 1 or it.body[0].k != 'str': raise Untranslatable(mgr + '::modules')
+            seps[mgr + ':modules'] = it.body[0].v
+        L.append('/-- separators of `definitions()` and the module lists -/\ndef plainSeparator : Text := %s\ndef framedSeparator : Text := %s\ndef plainModules : Text := %s\ndef framedModules : Text := %s\n'
+                 % (lean_cl(seps['LocalSchemeManager']), lean_cl(seps['DistributedSchemeManager']),
+                    lean_cl(seps['LocalSchemeManager:modules']) if seps['LocalSchemeManager:modules'] else '[]', lean_cl(seps['DistributedSchemeManager:modules'])))
+        return '\n'.join(L)
+    try:
+        chunks['bindings'] = ['/- manager.rs: binding texts -/', bindings(None)]
+        report['translated'].append('manager bindings')
+    except Exception as e:
+        report['untranslated']['manager bindings'] = '%s: %s' % (type(e).__name__, str(e)[:300])
+        chunks['bindings'] = ['-- UNTRANSLATED manager bindings: %s' % str(e)[:300]]
     # dependencies first, so that every generated definition uses the generated ones below it
     for name in ['schemeEscape', 'isPattern', 'terminatorEscape', 'templateEscape', 'Size.mult', 'TimeSpec.secs', 'FileType.octal', 'permValue', 'formatCmp', 'sizeMatching', 'compilePermCheck',
                  'specialLiteral', 'placeholder', 'snippetBody', 'hasAction', 'complexFrames', 'compileTest', 'compileAction',
-                 'compileExpr', 'compile', 'scheme', 'explainTable', 'contextStep', 'dispatchDecision', 'runOptionsUpdate']:
+                 'compileExpr', 'compile', 'scheme', 'explainTable', 'contextStep', 'dispatchDecision', 'runOptionsUpdate', 'bindings']:
         out += chunks.get(name, ['-- UNTRANSLATED %s: not attempted' % name])
     return out, report
 
